@@ -111,9 +111,12 @@ def gen_triple(rng, tier="quick"):
     in_names = {u["name"] for u in us} - {e[1] for e in es}
     offered = sorted({c for u in us if u["name"] in in_names for c in u["capabilities"]})
     isa = []
-    for c in offered:
+    for k, c in enumerate(offered):
         for j in range(rng.randint(1, 2)):
-            isa.append([("op%s%d" % ("".join(ch for ch in c[:2] if ch.isalnum()) or "x", j)), c])
+            isa.append([("op%s%d%s" % ("".join(ch for ch in c[:2] if ch.isalnum()) or "x", j, "" if k < 2 else chr(ord("a") + k))), c])
+    if len({m for m, _ in isa}) < len(isa):       # (a YAML mapping cannot even express two entries with one spelling)
+        seen = set()
+        isa = [[m, c] for m, c in isa if not (m in seen or seen.add(m))]
     if len(offered) >= 2 and rng.random() < 0.3:
         # a mnemonic spelled like an offered capability and mapped to ANOTHER capability, declared before the instructions
         # that use that capability (mnemonics and capabilities are separate name spaces; seeded change C13-11)
@@ -639,6 +642,8 @@ def evaluate(x, do_cli=True, do_cli_err=True) -> dict:
             ("C15", "the program uses an unsupported instruction")
     elif sim and sim.get("outcome") == "stall":
         stage = ("C08", "the simulation ends in a stall error")
+    if stage is not None and stage[0] == "C15" and len({m for m, _ in x["isa"]}) < len(x["isa"]):
+        stage = None      # the ISA file is a YAML mapping: identically spelled entries cannot be written, the CLI gets another table
     if stage is not None and do_cli_err and not non_ascii(x):
         rj = run_cli(x)
         o = None
